@@ -44,6 +44,12 @@ CHECKS.update({
    note="Trusted: TLC; NixDecode of NixText.tla as 'what Nix reads' (no Nix evaluator offline); tree-sitter for locating the written attribute tokens. Exhaustive up to the tier's length bound (names <= 2/3, path texts <= 3/4 characters, 2 segments).",
    tech="function transcribed to TLA+ (state machine per branch) + TLC-judged execution of every enumerated case"),
 })
+CHECKS.update({
+ "C16": dict(engine="cli", cat="model_checking", ref="DESIGN.md §7 C16",
+   text="Cli.tla models invocations on one file that is rewritten by redirecting stdout over it; TLC proves C16_NewlineStable / C16_ErrorSilent for the specified design and refutes them for the `always add a terminator' design (non-vacuity). Every input class x command x channel, single and chained with redirect, is executed through the real main() (plus a subprocess sample) next to the direct library call, and TLC (Cli_Trace) judges each step.",
+   note="Trusted: TLC; in-process main(argv) with patched stdio as stand-in for the process (a subprocess sample is compared with it on every run); the library call made next to it is the reference for `what the library computes'.",
+   tech="TLA+ CLI state machine (TLC, incl. refuted mutant design) + TLC trace validation of real invocations"),
+})
 import os
 built = {p: m for p, m in CHECKS.items()}
 checks = []
@@ -73,6 +79,8 @@ man = {
     "kind_free_text": "spec/Doc.tla + spec/Edit.tla (document state machine, reference semantics) -> histories replayed on one real document -> spec/Edit_Trace.tla"},
    {"name": "nixtext", "path": "harness/engines/nixtext.py", "serves_properties": ["C12"],
     "kind_free_text": "spec/NixText.tla + MC_NixText (names / path texts over character classes) -> real set/set/rm -> spec/NixText_Trace.tla"},
+   {"name": "cli", "path": "harness/engines/cli.py", "serves_properties": ["C16"],
+    "kind_free_text": "spec/Cli.tla -> real main()/subprocess invocations, chains with redirect -> spec/Cli_Trace.tla"},
  ],
  "checks": checks,
  "notes": "All checks: ./check <ID> [--tier quick|thorough]; VERIF_SEED / VERIF_TIER honoured. Known findings: known_findings.json. See DESIGN.md.",
